@@ -1,4 +1,5 @@
 import MontePyVerif.Lemmas.Links
+import MontePyVerif.Lemmas.LinksLoad
 /-!
 # C16 — forward links and reverse look-ups of the object graph always agree
 
@@ -809,5 +810,89 @@ example : (run (demo false) [.append .cell 0, .setGeometry 0 (.leaf false 1 true
     .append .surface 2]).surfaces = [1, 2] ∧
     (run (demo false) [.append .cell 0, .setGeometry 0 (.leaf false 1 true none), .addCellChildren,
     .append .surface 2]).slink 2 = true := by decide
+
+/-! ## directly after reading -/
+
+/-- **C16_load** — after the model's `load` (every input appended to its collection, then
+    `Cells.update_pointers`, then the universe and fill cards pushed to the cells), for every cell of the file the
+    containers hold *exactly* the dividers of the geometry: `leaves (c.geometry) = c.surfaces ∪ c.complements`
+    as sets of objects, and every node of the geometry points at the cell.  `UniqS st`: the problem read into
+    has no two surfaces with one number (the blank pool: none at all). -/
+theorem C16_load (st : St) (pcs : List PCell) (nS nM nT : Nat) (nextU : ObjId) (hu : UniqS st)
+    (h : (load st pcs nS nM nT nextU).1.2 = none) :
+    ∀ c, c < pcs.length → Exact (load st pcs nS nM nT nextU).1.1 c := by
+  unfold load at h ⊢
+  dsimp only at h ⊢
+  have u1 := appendAll_uniq .cell (List.range pcs.length) st hu
+  generalize appendAll .cell (List.range pcs.length) st = r1 at u1 h ⊢
+  obtain ⟨st1, e1⟩ := r1
+  cases e1 with
+  | some err => cases h
+  | none =>
+    dsimp only at u1 h ⊢
+    have u2 := appendAll_uniq .surface (List.range nS) st1 u1
+    generalize appendAll .surface (List.range nS) st1 = r2 at u2 h ⊢
+    obtain ⟨st2, e2⟩ := r2
+    cases e2 with
+    | some err => cases h
+    | none =>
+      dsimp only at u2 h ⊢
+      have u3 := appendAll_uniq .material (List.range nM) st2 u2
+      generalize appendAll .material (List.range nM) st2 = r3 at u3 h ⊢
+      obtain ⟨st3, e3⟩ := r3
+      cases e3 with
+      | some err => cases h
+      | none =>
+        dsimp only at u3 h ⊢
+        have u4 := appendAll_uniq .transform (List.range nT) st3 u3
+        generalize appendAll .transform (List.range nT) st3 = r4 at u4 h ⊢
+        obtain ⟨st4, e4⟩ := r4
+        cases e4 with
+        | some err => cases h
+        | none =>
+          dsimp only at u4 h ⊢
+          have u5 : UniqS { st4 with dataM := List.range nM, dataT := List.range nT } := u4
+          have hids : (((List.range pcs.length).zip pcs).map Prod.fst) = List.range pcs.length :=
+            List.map_fst_zip (by simp)
+          generalize hup : updateAllCells ((List.range pcs.length).zip pcs)
+            { st4 with dataM := List.range nM, dataT := List.range nT } = r5 at h ⊢
+          obtain ⟨st6, e6⟩ := r5
+          cases e6 with
+          | some err => cases h
+          | none =>
+            dsimp only at h ⊢
+            have hsp := updateAllCells_spec _ _ st6 hup u5 (by rw [hids]; exact List.nodup_range)
+            intro c hc
+            have hcm : c ∈ ((List.range pcs.length).zip pcs).map Prod.fst := by
+              rw [hids]; exact List.mem_range.mpr hc
+            obtain ⟨p, hp, hpc⟩ := List.mem_map.mp hcm
+            have hex := hsp.2.2 p hp
+            rw [hpc] at hex
+            have s1 := pushUniverses_same ((List.range pcs.length).zip pcs) st6 nextU
+            have s2 := pushFills_same ((List.range pcs.length).zip pcs)
+              (pushUniverses ((List.range pcs.length).zip pcs) st6 nextU).1
+            exact hex.of_eq ((s1.trans s2) c)
+
+/-- the containment invariant holds for the cells of the file directly after reading -/
+theorem C16_load_contain (st : St) (pcs : List PCell) (nS nM nT : Nat) (nextU : ObjId) (hu : UniqS st)
+    (h : (load st pcs nS nM nT nextU).1.2 = none) (c : ObjId) (hc : c < pcs.length) :
+    Contain (load st pcs nS nM nT nextU).1.1 c := by
+  obtain ⟨g, hg, ha, hs, hcm⟩ := C16_load st pcs nS nM nT nextU hu h c hc
+  intro g' hg'
+  rw [hg] at hg'
+  cases hg'
+  exact ⟨ha, fun s hs' => (hs s).mpr hs', fun d hd => (hcm d).mpr hd⟩
+
+/-- non-vacuity: a two-cell file (`1 0 -1 2`, `2 0 #1 1`) loads, cell 1 shares a surface and complements cell 0 -/
+def demoFile : List PCell :=
+  [{ num := 1, mat := 0, geom := .bin false (.leaf false 1 false) (.leaf false 2 true), univ := none, fill := none },
+   { num := 2, mat := 0, geom := .bin false (.compl (.leaf true 1 true)) (.bin false (.leaf false 1 true) (.leaf false 1 true)),
+     univ := some 5, fill := none }]
+
+example : (load (demo false) demoFile 2 0 0 0).1.2 = none ∧
+    ((load (demo false) demoFile 2 0 0 0).1.1.cellOf 1).surfs = [0] ∧
+    ((load (demo false) demoFile 2 0 0 0).1.1.cellOf 1).comps = [0] := by decide
+
+example : UniqS (demo false) := by simp [UniqS, demo, St.blank]
 
 end MontePyVerif.Links
